@@ -21,14 +21,21 @@ fn c15(args: &[String]) -> i32 {
 	// c15 <first|last> <id>...
 	use arrow2::array::PrimitiveArray;
 	use peppi::frame::{immutable::Frame, Rollbacks};
-	let keep = if args[0] == "first" { Rollbacks::ExceptFirst } else { Rollbacks::ExceptLast };
+	let keep = if args[0].starts_with("first") { Rollbacks::ExceptFirst } else { Rollbacks::ExceptLast };
 	let ids: Vec<i32> = args[1..].iter().map(|s| s.parse().unwrap()).collect();
+	// "<mode>-open": the last frame row was opened but never closed (a 3.0+ game cut before its last Frame End), so the item
+	// offsets delimit one frame fewer than there are rows; the mask is about the ROWS
+	let item_offset = if args[0].ends_with("-open") && !ids.is_empty() {
+		Some(arrow2::offset::OffsetsBuffer::<i32>::try_from(vec![0i32; ids.len()]).unwrap())
+	} else {
+		None
+	};
 	let frame = Frame {
 		id: PrimitiveArray::from_vec(ids.clone()),
 		ports: vec![],
 		start: None,
 		end: None,
-		item_offset: None,
+		item_offset,
 		item: None,
 	};
 	let got = frame.rollbacks(keep);
@@ -59,7 +66,7 @@ fn c15_search() -> i32 {
 				ids.push((-123 + (c % 3) as i32).to_string());
 				c /= 3;
 			}
-			for mode in ["first", "last"] {
+			for mode in ["first", "last", "first-open", "last-open"] {
 				let mut a = vec![mode.to_string()];
 				a.extend(ids.iter().cloned());
 				let r = std::panic::catch_unwind(|| c15(&a));
